@@ -1,4 +1,5 @@
 """C08 - the conformation average is the mean over the conformations that contain a group."""
+import re
 import io
 import math
 
@@ -170,6 +171,11 @@ def gen_inputs(ctx):
     # cysteines are fixed at 99.99 where bridged and titrate where not; the average is still the mean
     for order in (0, 1):
         out.append(("ss-open-closed-%d" % order, pdbgen.text(ss_open_closed(rnd, order)), "altloc"))
+    # a whole chain that only a later conformation owns (every atom of it tagged B): the first conformation gets it by topping-up,
+    # and the report - which lists the chains of the first conformation - must still show its groups
+    cl = pdbgen.chain_in_later_conformation(rnd)
+    if cl is not None:
+        out.append(("chain-only-in-conformation-B", pdbgen.text(cl), "altloc"))
     for i in range(17 if ctx.quick() else 150):
         lines = pdbgen.fragment(rnd, nres=rnd.randint(3, 9))
         lines = pdbgen.relabel(lines, chain="A")
@@ -340,6 +346,24 @@ def run(ctx):
                     want_names.append("%d%s" % (model, t))
         if sorted(want_names) != sorted(mol.conformation_names):
             probs.insert(0, "conformations %r, the file spells %r" % (mol.conformation_names, sorted(want_names)))
+        # "every ionizable group that exists in at least one conformation is reported": in the written file too - the reported
+        # groups of the average all have their block in the determinant table and their row in the summary
+        try:
+            txt = observe.pka_text(mol).split("\n")
+            i0 = next(k for k, l in enumerate(txt) if l.startswith(" RESIDUE    pKa    BURIED"))
+            i1 = next(k for k, l in enumerate(txt) if l.startswith("SUMMARY OF THIS PREDICTION"))
+            P0 = mol.version.parameters
+            want_labels = sorted(g.label for g in mol.conformations['AVR'].groups
+                                 if g.residue_type in P0.write_out_order and not (g.coupled_titrating_group and P0.remove_penalised_group))
+            blocks = sorted(l[:9] for l in txt[i0 + 2:i1 - 1] if len(l) >= 9 + 40 + 54 and not l.startswith("---") and l[9:49].strip())
+            rows = sorted(m.group(1) for m in (re.match(r"^   (.{9}) (.{8}) (.{10}) ", l) for l in txt[i1 + 2:]) if m)
+            if blocks != want_labels:
+                probs.append("AVR: the determinant table has blocks for %d groups, the reported groups are %d (missing %r)" % (
+                    len(blocks), len(want_labels), sorted(set(want_labels) - set(blocks))[:4]))
+            if rows != want_labels:
+                probs.append("AVR: the summary has rows for %d groups, the reported groups are %d" % (len(rows), len(want_labels)))
+        except StopIteration:
+            probs.append("AVR: sections missing in the written file")
         ctx.case(key=(name, hash(text)), nontrivial=len(mol.conformation_names) > 1 and ngroups > 0)
         ctx.count("%s inputs" % kind)
         ctx.count("conformations", len(mol.conformation_names))
@@ -422,6 +446,9 @@ def topup_corr(ctx, ignore):
     P = read_parameter_file("propka.cfg", Parameters())
     reqs, reals = [], []
     gen_inputs_cached = gen_inputs(ctx)
+    # the inputs with a structural twist always go through the program-level correspondence (sections of the .pka file included)
+    ctx.program_extra = getattr(ctx, "program_extra", []) + [(n, t, ()) for n, t, k in gen_inputs_cached
+                                                               if isinstance(t, str) and (n.startswith("chain-only") or n.startswith("ss-open"))]
     for name, text, kind in gen_inputs_cached:
         if kind == "identical":
             continue
